@@ -300,3 +300,44 @@ func SizeBucket(n int) string {
 		return ">=1MiB"
 	}
 }
+
+// Parallel runs f(0..n-1) on a pool of workers. Scenario code must draw everything it needs from
+// c.Rand BEFORE calling it (case generation is sequential so that a seed replays exactly).
+func Parallel(n, workers int, f func(i int)) {
+	if workers < 1 {
+		workers = 1
+	}
+	var wg sync.WaitGroup
+	ch := make(chan int)
+	for w := 0; w < workers; w++ {
+		wg.Add(1)
+		go func() {
+			defer wg.Done()
+			for i := range ch {
+				f(i)
+			}
+		}()
+	}
+	for i := 0; i < n; i++ {
+		ch <- i
+	}
+	close(ch)
+	wg.Wait()
+}
+
+// Background tracks asynchronous clean-up (closing simulated worlds) so a scenario can wait for it
+// at the end instead of after every case.
+type Background struct{ wg sync.WaitGroup }
+
+func (b *Background) Go(f func()) {
+	b.wg.Add(1)
+	go func() { defer b.wg.Done(); f() }()
+}
+func (b *Background) Wait(max time.Duration) {
+	done := make(chan struct{})
+	go func() { b.wg.Wait(); close(done) }()
+	select {
+	case <-done:
+	case <-time.After(max):
+	}
+}
